@@ -83,9 +83,35 @@ def build(targets):
 
 
 def translate():
-    """Regenerate lean/Sparrow/Generated/*.lean from /repo's working tree."""
+    """Regenerate lean/Sparrow/Generated/*.lean from /repo's working tree (never raises)."""
     from .translate import run_all
-    return run_all()
+    return run_all(validate=lambda module: lake(['build', module]))
+
+
+def generated_deps(prop):
+    """Names of the Generated modules that Props/<prop>.lean imports, transitively."""
+    root = os.path.join(common.LEAN_DIR)
+    seen, todo, gens = set(), ['Sparrow.Props.' + prop], set()
+    while todo:
+        m = todo.pop()
+        if m in seen or not m.startswith('Sparrow.'):
+            continue
+        seen.add(m)
+        if m.startswith('Sparrow.Generated.'):
+            gens.add(m.split('.')[-1])
+        path = os.path.join(root, *m.split('.')) + '.lean'
+        try:
+            with open(path) as f:
+                for line in f:
+                    mm = re.match(r'\s*import\s+(\S+)', line)
+                    if mm:
+                        todo.append(mm.group(1))
+        except FileNotFoundError:
+            pass
+    # CheckParse re-exports Check
+    if 'CheckParse' in gens:
+        gens.add('Check')
+    return gens
 
 
 def audit(prop, names):
@@ -112,13 +138,15 @@ def audit(prop, names):
 def check(prop, extra_targets=()):
     """Returns dict(ok, obligations, discharged, failures, axioms, trusted_base, log)."""
     info = {'ok': True, 'failures': [], 'log': ''}
-    try:
-        tr = translate()
-        info['translated'] = tr
-    except Exception as e:  # translation failure = broken tie
-        info['ok'] = False
-        info['failures'].append({'kind': 'translator', 'what': repr(e)})
-        info['translated'] = {}
+    tr = translate()
+    info['translated'] = tr
+    deps = generated_deps(prop)
+    info['generated_deps'] = sorted(deps)
+    for name, r in tr.items():
+        if r.get('error') and name in deps:  # translation failure of a file this property uses = broken tie
+            info['ok'] = False
+            info['failures'].append({'kind': 'translator', 'what': '%s: %s' % (name, r['error'])})
+    not_tr = ((tr.get('Constants') or {}).get('facts') or {}).get('_not_translated') or {}
     rc, out = build(['Sparrow.Props.' + prop, 'sparrow-driver'] + list(extra_targets))
     info['log'] = out[-4000:]
     names = []
@@ -133,7 +161,9 @@ def check(prop, extra_targets=()):
         info['ok'] = False
         errs = re.findall(r'error: ([^\n]*)', out)
         info['failures'].append({'kind': 'build', 'what': 'lake build Sparrow.Props.%s failed' % prop,
-                                 'errors': errs[:10]})
+                                 'errors': errs[:10],
+                                 'facts_not_translated': {k: v for k, v in not_tr.items()
+                                                          if any(k in e for e in errs)}})
         info['discharged'] = 0
         info['axioms'] = {}
         return info
